@@ -89,3 +89,16 @@ def NameMap.get {β : Type} (m : NameMap β) (name : Str) : Option β :=
       | some (exact, _) => amGet m.definitions exact
 
 end Wac
+
+namespace Wac
+
+/-- insert the entries in order, shadowing off (the only way wac populates a `NameMap`);
+`none` = some insertion was rejected -/
+def NameMap.insertAll {β : Type} (m : NameMap β) : List (Str × β) → Option (NameMap β)
+  | [] => some m
+  | (n, x) :: r =>
+    match m.insert n false x with
+    | none => none
+    | some m' => m'.insertAll r
+
+end Wac
